@@ -227,7 +227,15 @@ RmFirstMissing == C("rmfirstmissing", <<Rmd(Two(R("r1", SC, 0, "a", "multierr", 
 RmFirstMissingOut == C("rmfirstmissingout", <<Rmd(Two(R("r1", TR, 0, "a", "outkn", FALSE, <<P("S3")>>), 1), <<1>>)>>)
 RmFirstCycle == C("rmfirstcycle", <<Rmd(Two(R("r1", SC, 0, "a", "multierr", FALSE, <<P("S2")>>), 1), <<1>>),
                                     R("r2", SC, 2, "a", "ctorerr", FALSE, <<P("S1")>>)>>)
-CfgRemoved == {MultiRmReadd, MultiRmFirst, OutKNRmFirst, MultiRmAll}
+\* initialization functions registered with a name: resolvable by key, removable by key
+InitNamed == C("initnamed", <<R("r1", SG, 0, "a", "ctorerr", FALSE, <<>>),
+                              Named(R("r2", SC, 0, "a", "init", FALSE, <<P("S0")>>)),
+                              R("r3", SC, 1, "a", "ctorerr", FALSE, <<P("S0")>>)>>)
+InitNamedRm == C("initnamedrm", <<R("r1", SG, 0, "a", "ctorerr", FALSE, <<>>),
+                                  Rmd(Named(R("r2", SC, 0, "a", "init", FALSE, <<P("S0")>>)), <<1>>),
+                                  R("r3", SC, 0, "b", "initerr", FALSE, <<>>),
+                                  R("r4", SC, 1, "a", "ctorerr", FALSE, <<P("S0")>>)>>)
+CfgRemoved == {InitNamed, InitNamedRm, MultiRmReadd, MultiRmFirst, OutKNRmFirst, MultiRmAll}
 CfgRemovedDefective == {RmFirstCaptive, RmFirstCaptiveOut, RmFirstMissing, RmFirstMissingOut, RmFirstCycle}
 
 \* the same transient requested by two FIELDS of one parameter object (plain, named, group), by a scoped consumer,
@@ -309,6 +317,7 @@ Tree1 == [s1 |-> "prov"]
 
 One(c) == {c}
 CfgBasic == {Basic}
+CfgRemovedAll == CfgRemoved \cup CfgRemovedDefective
 CfgRelease == {Basic, Chain, Inits, Multi, Diamond2}
 CfgBuiltin == {Builtin}
 CfgAll == Plain \cup Defective
